@@ -313,3 +313,59 @@ def histories(o1: str, o2: str, o3: str, k1: str, k2: str, k3: str) -> bool:
             return fail(f"after {op}({key!r}) the tree differs from the dictionary model")
     cover("model-agrees")
     return True
+
+
+# ================================================================================ retargeting an alias
+WHICH = ["fresh parentless alias", "alias m.a (unresolved)", "alias m.a (resolved)"]
+NEW_TARGETS = ["itself", "object at the alias's own path", "m.f", "m.C", "n.g"]
+
+
+@obligation(
+    pid="C16", name="retarget", timeout=tiered(200, 600),
+    shards=lambda: [(f"alias={w}", None, [dict(which=w)]) for w in WHICH],
+    pre=lambda which, target: 0 <= target < len(NEW_TARGETS),
+    drives=[Alias.target.fset, Alias.target.fget, Alias.final_target.fget],
+    bounds={"alias": WHICH, "new target": NEW_TARGETS}, value_symbolic=["which object the alias is pointed at"], selectors=["which alias (driver-bound)"], stubs=STUBS,
+    must_cover=["self-target-refused", "retargeted"],
+    grid=lambda seed: [dict(which=w, target=t) for w in WHICH for t in range(len(NEW_TARGETS))],
+)
+def retarget(which: str, target: int) -> bool:
+    """`alias.target = value` never makes an alias target itself; a successful retargeting registers the alias on its new target."""
+    col, m, n, c = build(which == WHICH[2], False, False)
+    al = Alias("a", "m.f", lineno=30, endlineno=30) if which == WHICH[0] else m.members["a"]
+    if target == 0:
+        value = al
+    elif target == 1:
+        value = Function("a", lineno=40, endlineno=41)
+        value.parent = m  # path m.a, the path the (tree) alias has / a parentless alias named a would get in m
+    elif target == 2:
+        value = m.members["f"]
+    elif target == 3:
+        value = c
+    else:
+        value = n.members["g"]
+    try:
+        al.target = value
+        raised = False
+    except CyclicAliasError:
+        raised = True
+    except AttributeError:
+        raised = "attr"  # a parentless alias has no path: the guard cannot even be evaluated
+    if target == 0 or (target == 1 and which != WHICH[0]):
+        if raised is True:
+            cover("self-target-refused")
+            return True
+        # not refused: at least the alias must not end up targeting itself
+        if al._target is al:
+            return fail(f"{which}: alias.target = {NEW_TARGETS[target]} left the alias targeting itself")
+        return fail(f"{which}: alias.target = {NEW_TARGETS[target]} was not refused with CyclicAliasError (raised={raised})") if raised is False else True
+    if raised is True:
+        return fail(f"{which}: retargeting to {NEW_TARGETS[target]} refused")
+    if raised == "attr":
+        return al._target is not al or fail("alias targets itself after a failed retargeting")
+    cover("retargeted")
+    if al._target is not value:
+        return fail("target not set")
+    if al.parent is not None and value.aliases.get(al.path) is not al:
+        return fail("retargeted alias is not registered among its new target's aliases under its current path")
+    return True
